@@ -4,7 +4,7 @@ MODEL = ["@model/gmp_model.c", "@model/io_model.c", "@model/globals_mpq.c"]
 
 GROUPS = [
     Group("qsb/QSwrite_basis", "qs_basis.c", tus=QS, model=MODEL, defines=["FN_QSwrite_basis"],
-          enforce=["mpq_QSwrite_basis/contract_QSwrite_basis"], loops="qsopt.json", expect_loops=4,
+          enforce=["mpq_QSwrite_basis/contract_QSwrite_basis"], loops="qsopt.json", expect_loops=4, preinline=["qsbasis_to_illbasis", "mpq_ILLlp_basis_free"],
           props=["C14", "C07", "C17", "C18"], 
           assumed=["qsb/QSwrite_basis: ILLlib_writebasis (the text writer, C14 round-trip half) is a nondeterministic stub that records the basis it is given"]),
 ]
